@@ -281,7 +281,10 @@ RObj(ctx, cls, cons, d, disc) ==
   LET K       == ctx.C[cls]
       fs      == DeserFields(K)
       keys    == Keys(d.o)
-      names   == {Ext(ctx, fs[i]) : i \in DOMAIN fs}        \* reserved names (all fields)
+      \* names consumed by the REGULAR fields.  The name of a flattened / properties field is no property of
+      \* the object (no view lists it): as a key it is handled like any other key.  Deviation "aggnames"
+      \* (pinned tree, repaired): aggregate field names were reserved too and such a key silently dropped.
+      names   == {Ext(ctx, fs[i]) : i \in {j \in DOMAIN fs : IsNormal(fs[j]) \/ "aggnames" \in ctx.O.dev}}
       remain0 == keys \ names
       \* ---- normal fields
       present(f) == Ext(ctx, f) \in keys
